@@ -96,3 +96,16 @@ package manifest
 // can be compared with the stream names of the manifest.
 //@ func fixStreamName property C10,C17
 //@   ensures result == "." || strings.HasPrefix(result, "./")
+
+// unescapeSeq: called on a match of `\\([0-9]{3}|\\)`: a doubled backslash is
+// one backslash, a valid 3-digit octal escape (at most \377) is the single
+// byte with that value, anything else (\400..\999) is left as it is; no slice
+// expression can panic on such an argument.  UnescapeName applies it to
+// exactly the matches of that pattern in the name.
+//@ func unescapeSeq property C10
+//@   requires matches(seq, `^\\([0-9]{3}|\\)$`)
+//@   ensures seq == "\\\\" ==> result == "\\"
+//@   ensures seq != "\\\\" && !(parseok(seq[1:], 8) && parseint(seq[1:], 8) < 256) ==> result == seq
+//@   ensures seq != "\\\\" && parseok(seq[1:], 8) && parseint(seq[1:], 8) < 256 ==> len(result) == 1
+//@ func UnescapeName property C10
+//@   calls Regexp.ReplaceAllStringFunc#1: requires $0 == s
